@@ -29,6 +29,17 @@ Theorem static_auth_iff : ∀ H, (∀ a b, H a = H b → a = b) → ∀ su sp u 
 Proof. exact static_iff. Qed.
 Print Assumptions static_auth_iff.
 
+From Wasp Require Import Spec.MatchSpec Model.DState Model.IdPool Model.Mount Model.Node Proofs.NodeFacts.
+(** A refused CONNECT (the credential store said no) receives the refusal CONNACK and leaves
+    every node, every registry, every session record, subscription and will as it was. *)
+Theorem refused_creates_nothing : ∀ cl i c cid user pass ka will clk, refused pass = true →
+  let r := setup cl i c cid user pass ka will clk in
+  cl_nodes r.1 = cl_nodes cl ∧ cl_next r.1 = cl_next cl ∧
+  (∀ k, find_conn r.1 k = match find_conn cl k with Some x => Some x | None => if String.eqb c k then Some (Conn c i None false) else None end) ∧
+  r.2 = [Out c (OConnAck 4); Deadline c 3000].
+Proof. exact refused_connect_creates_nothing. Qed.
+Print Assumptions refused_creates_nothing.
+
 (** non-vacuity: six users, every one of them found (the pinned == predicate found two) *)
 Example c16_table :
   let H := fun s => Z.of_nat (String.length s) * 7 mod 5 + Z.of_nat (String.length s) in
